@@ -14,7 +14,10 @@
 //! Each node has some fast (but fallible) nodes and a fallback node, with different algorithms to
 //! claim them (see the relevant submodules).
 
+#[cfg(not(arc_swap_verif))]
 use core::sync::atomic::AtomicUsize;
+#[cfg(arc_swap_verif)]
+use crate::verif_hooks::AtomicUsize;
 use core::sync::atomic::Ordering::*;
 
 pub(crate) use self::list::{LocalNode, Node};
@@ -23,6 +26,8 @@ use super::RefCnt;
 mod fast;
 mod helping;
 mod list;
+#[cfg(arc_swap_verif)]
+pub(crate) use self::list::verif;
 
 /// One debt slot.
 ///
